@@ -386,6 +386,8 @@ type Network struct {
 	lastActor        *SimNode
 	lastActorChecked bool
 	puppets          map[int]*Puppet
+	// KeyOverride gives chosen identities (by index) a fixed key instead of the derived one
+	KeyOverride map[int]*ecdsa.PrivateKey
 	// SubmitViaProxy: submissions go through InmemProxy.SubmitTx from a reused buffer
 	SubmitViaProxy bool
 	scratch        []byte
@@ -413,6 +415,8 @@ type SubmittedTx struct {
 	Step  int
 	Count int // how many times these exact bytes were submitted (duplicate content)
 	Inc   int // incarnation of the node that accepted it
+	// ByNode: how many of the Count submissions each (node, incarnation) accepted
+	ByNode map[[2]int]int
 }
 
 type ItxRecord struct {
@@ -481,6 +485,9 @@ func (nw *Network) Close() {
 func (nw *Network) addIdentity(moniker string) *SimNode {
 	idx := len(nw.Nodes)
 	k := detKey(nw.Seed, nw.keyLabel, idx)
+	if ko, ok := nw.KeyOverride[idx]; ok {
+		k = ko
+	}
 	if moniker == "" {
 		moniker = fmt.Sprintf("node%d", idx)
 	}
@@ -733,8 +740,9 @@ func (nw *Network) Submit(a *SimNode, tx []byte) {
 	key := string(tx)
 	if st, ok := nw.Submitted[key]; ok {
 		st.Count++
+		st.ByNode[[2]int{a.Idx, a.Incarnation}]++
 	} else {
-		st := &SubmittedTx{Bytes: cp, Node: a.Idx, Step: nw.Step, Count: 1, Inc: a.Incarnation}
+		st := &SubmittedTx{Bytes: cp, Node: a.Idx, Step: nw.Step, Count: 1, Inc: a.Incarnation, ByNode: map[[2]int]int{{a.Idx, a.Incarnation}: 1}}
 		nw.Submitted[key] = st
 		nw.SubmitOrder = append(nw.SubmitOrder, st)
 	}
